@@ -203,7 +203,7 @@ PROPS = {
             {"name": "sizes", "n_quick": 6000, "n_thorough": 200000},
             {"name": "sqlx", "n_quick": 30000, "n_thorough": 1500000, "compare": False, "min_per_proc": 500},
         ],
-        "rule": "sizes: Map (offset/limit), Join (4 kinds x unique flags) and Set (3 operators) nodes built through the builders over tables of size 0..1000: declared size vs the Lean size model. " + "sqlx: generated queries of the supported fragment over t1(a PK, b, c, d, e nullable), t2(a, f, g), t3(k unique, h, w unique float): projections with scalar expressions (arithmetic, abs, CASE, greatest, coalesce, upper), WHERE (comparisons, IN, AND/OR, text equality), DISTINCT, total ORDER BY with LIMIT/OFFSET, aggregations (sum/count/avg/min/max/count distinct, mixed aggregate-scalar items) grouped by column / expression, HAVING, INNER/LEFT/RIGHT/FULL joins ON, USING, NATURAL, derived tables, CTEs, UNION/UNION ALL/INTERSECT/EXCEPT, functions of unique columns; x conforming database instances (empty tables, boundary values, NULLs, duplicate and unmatched join keys, unique keys distinct); the relation rendered by the library is executed on SQLite next to the original text; non-trivial = non-empty result",
+        "rule": "sizes: Map (offset/limit), Join (4 kinds x unique flags) and Set (3 operators) nodes built through the builders over tables of size 0..1000: declared size vs the Lean size model. " + "sqlx: generated queries of the supported fragment over t1(a PK, b, c, d, e nullable), t2(a, f, g), t3(k unique, h, w unique float): projections with scalar expressions (arithmetic, abs, CASE, greatest, coalesce, upper), WHERE (comparisons, IN, AND/OR, text equality), DISTINCT, total ORDER BY with LIMIT/OFFSET, aggregations (sum/count/avg/min/max/count distinct, mixed aggregate-scalar items) grouped by column / expression, HAVING, INNER/LEFT/RIGHT/FULL joins ON (also disjunctions of equalities), USING, NATURAL, derived tables, CTEs, diamonds (one sub-query on both sides of a join or set operation, single- and multi-stage), UNION/UNION ALL/INTERSECT/EXCEPT, functions of unique columns, aliases that shadow input columns in GROUP BY / ORDER BY / WHERE / HAVING, shadowed table names, multi-branch CASE with overlapping conditions, the math and text functions the reader declares (sqrt, exp, ln, log2, log10, sin, cos, tan, round, trunc, sign, pow, lower, substr, ltrim, rtrim, ||, char_length, concat with 1..4 arguments), BETWEEN / LIKE / IS NULL / NOT predicates, projections of random() and of functions of it (executed with a seeded stream of distinct draws, not compared with the original); x conforming database instances (empty tables, boundary values, NULLs, duplicate and unmatched join keys, unique keys distinct); the relation rendered by the library is executed on SQLite next to the original text; non-trivial = non-empty result",
         "trusted_base": COMMON_TRUST + ["SQLite 3.40 + harness shims as executor of the rendered relation"],
         "assumptions": ["SQLite semantics (type affinity, integer division, NULL ordering) only where the generated fragment exercises them", "column types are checked by execution only; the Lean part covers row counts"],
         "technique": "Lean 4 proof (size lemmas for filter/offset/limit, set operations, inner joins with product and unique-key bounds; kernel-checked counterexample for outer joins) + correspondence of declared sizes with the model + execution oracle (cells in declared types, row counts in declared sizes)",
